@@ -327,6 +327,9 @@ class Interp:
                     self.block(st.body, loc)
             elif isinstance(st, ast.Return):
                 raise _Ret(self.ev(st.value, loc) if st.value is not None else None)
+            elif isinstance(st, ast.Assert):
+                if not self.ev(st.test, loc):
+                    raise PyRaise("AssertionError")
             else:
                 raise Untr("statement " + type(st).__name__)
 
@@ -372,19 +375,62 @@ class _Obj:
 class ObjInterp(Interp):
     """Interp + instances of classes of the same module: `self.x = v`, `self.x`, `self.method(...)` (used to EXECUTE KeyDerivator)"""
 
-    def method(self, cname, name, seen=()):
+    def method(self, cname, name, seen=(), setter=False):
+        """first definition of `name` along the bases (getter / plain method, or the `@name.setter` one); remembers the owning class"""
         c = self.env.classes.get(cname)
         if c is None or cname in seen:
             return None
         for n in c.node.body:
             if isinstance(n, ast.FunctionDef) and n.name == name:
-                return n
+                is_set = any(isinstance(dc, ast.Attribute) and dc.attr == "setter" for dc in n.decorator_list)
+                if is_set == setter:
+                    self.__dict__.setdefault("owner", {})[id(n)] = cname
+                    return n
         for b in c.node.bases:
             if isinstance(b, ast.Name):
-                m = self.method(b.id, name, seen + (cname,))
+                m = self.method(b.id, name, seen + (cname,), setter)
                 if m is not None:
                     return m
         return None
+
+    def run(self, fn, args=(), kw=None):
+        stack = self.__dict__.setdefault("stack", [])
+        stack.append(self.__dict__.get("owner", {}).get(id(fn)))
+        try:
+            return super().run(fn, args, kw)
+        finally:
+            stack.pop()
+
+    def call(self, e, loc):
+        f = e.func
+        if isinstance(f, ast.Attribute) and isinstance(f.value, ast.Call) and isinstance(f.value.func, ast.Name) and f.value.func.id == "super":
+            owner = (self.__dict__.get("stack") or [None])[-1]
+            o = loc.get("self")
+            if owner is None or not isinstance(o, _Obj):
+                raise Untr("super() outside a method")
+            args = [self.ev(a, loc) for a in e.args]
+            kw = {k.arg: self.ev(k.value, loc) for k in e.keywords}
+            for b in self.env.classes[owner].node.bases:
+                if isinstance(b, ast.Name):
+                    m = self.method(b.id, f.attr)
+                    if m is not None:
+                        return self.run(m, [o] + args, kw)
+            if f.attr == "__init__":
+                return None
+            raise Untr(f"super().{f.attr} not found")
+        return super().call(e, loc)
+
+    def block(self, stmts, loc):
+        for st in stmts:
+            if (isinstance(st, ast.AugAssign) and isinstance(st.target, ast.Attribute) and isinstance(st.target.value, ast.Name)
+                    and isinstance(loc.get(st.target.value.id), _Obj)):
+                cur, v = self.ev(st.target, loc), self.ev(st.value, loc)
+                op = {ast.Add: lambda: cur + v, ast.Sub: lambda: cur - v, ast.Mult: lambda: cur * v, ast.FloorDiv: lambda: cur // v}.get(type(st.op))
+                if op is None:
+                    raise Untr("augmented assignment")
+                self.assign(st.target, op(), loc)
+            else:
+                super().block([st], loc)
 
     def new(self, cname, *args, **kw):
         o = _Obj(cname)
@@ -412,7 +458,12 @@ class ObjInterp(Interp):
 
     def assign(self, target, value, loc):
         if isinstance(target, ast.Attribute) and isinstance(target.value, ast.Name) and isinstance(loc.get(target.value.id), _Obj):
-            loc[target.value.id].attrs[target.attr] = value
+            o = loc[target.value.id]
+            st = self.method(o.cname, target.attr, setter=True)
+            if st is not None:
+                self.run(st, [o, value])
+            else:
+                o.attrs[target.attr] = value
         else:
             super().assign(target, value, loc)
 
@@ -1147,6 +1198,37 @@ def gen_Sb31Consts():
 
     leaves = sorted(cn for cn in bases if cn != "BaseCmd" and derives(cn) and not any(cn in bs for bs in bases.values()))
     L.append("def cmdLeafClasses : List String := [" + ", ".join(f'"{x}"' for x in leaves) + "]  -- concrete command classes of commands.py (descendants of BaseCmd without subclasses)")
+    # ---- every command class EXECUTED: constructor + export() on marker arguments (distinct byte patterns in every field, data lengths that
+    # need padding) through the object interpreter: `super()`, properties / setters, class constants along the bases, `align_block` stub
+    def _align(data=None, alignment=4, padding=None):
+        data = bytes(data)
+        return data + bytes((-len(data)) % alignment) if alignment > 0 else data
+
+    tagns = types.SimpleNamespace(**{n: types.SimpleNamespace(tag=v, label=n) for n, v in tags})
+    itC = ObjInterp(cmd, {"EnumCmdTag": tagns, "align_block": _align})
+    A, B_, C_, D5, D8 = 0xA1A2A3A4, 0xB1B2B3B4, 0xC1C2C3C4, bytes([1, 2, 3, 4, 5]), bytes([1, 2, 3, 4, 5, 6, 7, 8])
+    plan = [("CmdCall", [A]), ("CmdConfigureMemory", [A, B_]), ("CmdCopy", [A, B_, C_, 0xD1D2D3D4, 0xE1E2E3E4]), ("CmdErase", [A, B_, C_]),
+            ("CmdExecute", [A]), ("CmdFillMemory", [A, B_, C_]), ("CmdFwVersionCheck", [A, types.SimpleNamespace(tag=5, label="bootloader")]),
+            ("CmdLoad", [A, D5, C_]), ("CmdLoadCmac", [A, D5, C_]), ("CmdLoadHashLocking", [A, D5, C_]), ("CmdLoadKeyBlob", [0xA1A2, D5, 0xB1B2]),
+            ("CmdProgFuses", [A, D8]), ("CmdProgIfr", [A, D5]), ("CmdReset", [])]
+    samples = []
+    for cname, args in plan:
+        try:
+            o = itC.new(cname, *args)
+            ex = itC.method(cname, "export")
+            if ex is None:
+                raise Untr("export not found")
+            r = outcome(lambda: itC.run(ex, [o]))
+            if r[0] != "ok" or not isinstance(r[1], bytes):
+                raise Untr(f"export: {r}")
+            samples.append((cname, r[1]))
+        except (Untr, PyRaise, NotConst, KeyError) as exc:
+            note(f"{cname} (executed)", exc)
+            samples.append((cname, b""))
+    meta["cmdSamples"] = {c: ("executed" if b else "sentinel") for c, b in samples}
+    L.append("/-- constructor + `export()` of every command class EXECUTED on marker arguments (address 0xA1A2A3A4, second field 0xB1B2B3B4, third 0xC1C2C3C4, "
+             "copy memory ids 0xD1D2D3D4 / 0xE1E2E3E4, data 01..05 (fuses 01..08), key blob offset 0xA1A2 / wrap id 0xB1B2, counter id 5) -/")
+    L.append("def cmdSamples : List (String × Bytes) := [" + ", ".join(f'("{c}", [{", ".join(map(str, b))}])' for c, b in samples) + "]")
     L += ["", "end SpsdkVerif.Generated.Sb31Consts"]
     emit("Sb31Consts", "\n".join(L) + "\n", meta)
 
